@@ -417,6 +417,14 @@ def run(prop="C16", tier="quick", seed=1):
                 confirmed = rt.get((name, trait, code))
                 problems.append(dict(kind="monitor", what=what, type=name, trait=trait, assignment=code,
                                      rustc_accepts=confirmed, failing_input=rust_expr(types, name, trait, code)))
+    # rustc itself is the authority for "a future / stream is Unpin for some instantiation"
+    futs = {t["name"] for t in types if t.get("future")}
+    already = {(p.get("type"), p.get("trait")) for p in problems if isinstance(p, dict)}
+    for (name, trait, code), v in sorted(rt.items()):
+        if trait == "Unpin" and v and name in futs and (name, "Unpin") not in already:
+            already.add((name, "Unpin"))
+            problems.append(dict(kind="monitor", what="future-unpin", type=name, trait="Unpin", assignment=code,
+                                 rustc_accepts=True, failing_input=rust_expr(types, name, "Unpin", code)))
     # guarded producers: every impl of a guarded trait must reject a lock type that is not Sync.
     # The concrete failing input is the instance rustc accepts although the lock is !Sync.
     for (name, trait, code), v in sorted(rt.items()):
